@@ -4,7 +4,7 @@
    an arbitrary history of events, the predicates of Observe/Spec.v are RFC 7641 3.4 and the
    property text. *)
 From Coq Require Import ZArith List Bool.
-From GoCoap Require Import Base.Bytes Observe.Model Observe.Spec Observe.Proofs.
+From GoCoap Require Import Base.Bytes Observe.Model Observe.Spec Observe.Proofs Observe.BwModel Observe.BwSpec Observe.BwProofs.
 Import ListNotations.
 Open Scope Z_scope.
 
@@ -148,3 +148,97 @@ Example C08_instance :
      [Cb 0 tok (Some (7 + 2 ^ 23 - 1)) 6]; [Cb 0 tok (Some 3) 7]; []; [Nx [9] 9]; [CanRet 0 1]; [Nx tok 10]]
   /\ c08_class (snd (run observe_wire evs)) = 0%N.
 Proof. vm_compute. split; reflexivity. Qed.
+
+(* ---------- Cancel whose deregistration exchange fails ---------- *)
+
+(* C08_after_cancel quantifies over histories that contain such cancellations (ECancelErr): Cancel returns
+   an error, and still nothing that arrives later reaches the callback.  The reason, stated directly: the
+   observation is out of the table when Cancel returns, whatever became of the deregistration request *)
+Theorem C08_failed_cancel_removes : forall s id tok s' os,
+  nth_error (regs s) id = Some tok -> cancel_err s id = (s', os) -> live s' tok = false.
+Proof. exact cancel_err_removes. Qed.
+Print Assumptions C08_failed_cancel_removes.
+
+(* ---------- block-wise notifications (RFC 7959 2.6) ---------- *)
+(* [bw_run]: a udp/client.Conn with block-wise transfer: net/blockwise's receive path (reassembly cache keyed
+   by the token drawn for the transfer, restart when the ETag changes) in front of the observation handler.
+   [view] (Observe/BwSpec.v) reads a wire history as notifications: an answer under a drawn token belongs to
+   the notification whose first block made the client draw that token; freshness of a callback invocation is
+   judged by the sequence number of THAT notification. *)
+
+(* the observation layer's share of a block-wise run is a run of the model the theorems above are about *)
+Theorem C08_blockwise_refines : forall evs,
+  obs_trace (snd (bw_run evs)) = snd (run observe_wire (devs (snd (bw_run evs)))).
+Proof. exact bw_obs_refines. Qed.
+Print Assumptions C08_blockwise_refines.
+
+(* restarting a transfer (other ETag) keeps Observe option, token and code of the first block *)
+Theorem C08_blockwise_restart_keeps_observe : forall cm m,
+  c_obs (retag cm m) = c_obs cm /\ c_tok (retag cm m) = c_tok cm /\ c_code (retag cm m) = c_code cm.
+Proof. exact retag_keeps_observe. Qed.
+Print Assumptions C08_blockwise_restart_keeps_observe.
+
+(* once Cancel() has returned or the registration has failed nothing reaches the callback any more - also
+   not the body of a block-wise notification that was under way; unconditional *)
+Theorem C08_blockwise_after_cancel : forall evs id, after_ok id (view (wire_trace (snd (bw_run evs)))) = true.
+Proof. exact bw_after_cancel. Qed.
+Print Assumptions C08_blockwise_after_cancel.
+
+(* hypotheses of the next two theorems ([bw_hist_ok]): Observe option values are bytes; Block2 with M = 1 occurs on
+   first blocks of notifications and under drawn tokens only; a drawn token is new; no two tokens of the history
+   have the same CRC-64 (cf. C08_own_token_refuted); no registration uses a drawn token.
+   In every history - notifications overtaking block-wise ones, transfers restarted because the ETag changed,
+   several transfers at once, wrong / repeated blocks, cancellations in between - the notifications for which
+   the callback of a registration is invoked are consecutively fresher (RFC 7641 3.4) *)
+Theorem C08_blockwise_monotone_partial : forall evs id,
+  bw_hist_ok evs -> aforward_ok id (view (wire_trace (snd (bw_run evs)))) = true.
+Proof. intros evs id H. exact (bw_forward evs id H). Qed.
+Print Assumptions C08_blockwise_monotone_partial.
+
+(* full statement: without the CRC-64 hypothesis inside bw_hist_ok; refuted as C08_own_token_refuted *)
+Theorem C08_blockwise_holds_partial : forall evs,
+  bw_hist_ok evs -> c08b_class (wire_trace (snd (bw_run evs))) = 0%N.
+Proof. exact bw_holds. Qed.
+Print Assumptions C08_blockwise_holds_partial.
+
+(* non-vacuity: registration, seq 1; first block of seq 10 (ETag e1e1) -> GET block 1 under the drawn token F;
+   seq 11 overtakes; block 1 arrives with ETag e2e2 -> restart at block 0; blocks 0 and 1; seq 12.
+   The reassembled body belongs to seq 10 and is not delivered.  The hypotheses hold of this history, and the
+   predicate rejects the same history with a delivery of the stale body in event 6. *)
+Definition bw_example : list bev :=
+  let T := [161; 178] in
+  let F := [247; 94; 0; 0; 0; 0; 0; 0] in
+  [BReg T;
+   BMsg (mkW T 69 (Some [1]) None None 1 4) [] 1000;
+   BMsg (mkW T 69 (Some [10]) (Some [225; 225]) (Some (0, 0, true)) 2 16) F 1000;
+   BMsg (mkW T 69 (Some [11]) None None 3 6) [] 1000;
+   BMsg (mkW F 69 None (Some [226; 226]) (Some (0, 1, false)) 4 4) [] 1000;
+   BMsg (mkW F 69 None (Some [226; 226]) (Some (0, 0, true)) 5 16) [] 1000;
+   BMsg (mkW F 69 None (Some [226; 226]) (Some (0, 1, false)) 6 11) [] 1000;
+   BMsg (mkW T 69 (Some [12]) None None 7 5) [] 1000].
+
+Example C08_blockwise_instance :
+  bw_hist_ok bw_example /\
+  map snd (obs_trace (snd (bw_run bw_example))) =
+    [[]; [Cb 0 [161; 178] (Some 1) 1; RegRet 0 0]; []; [Cb 0 [161; 178] (Some 11) 3]; []; []; [];
+     [Cb 0 [161; 178] (Some 12) 7]] /\
+  map (fun x => snd x) (snd (bw_run bw_example)) =
+    [[]; []; [BGet [247; 94; 0; 0; 0; 0; 0; 0] 0 1]; []; [BGet [247; 94; 0; 0; 0; 0; 0; 0] 0 0];
+     [BGet [247; 94; 0; 0; 0; 0; 0; 0] 0 1]; []; []] /\
+  c08b_class (wire_trace (snd (bw_run bw_example))) = 0%N /\
+  c08b_class (combine bw_example
+    [[]; [Cb 0 [161; 178] (Some 1) 1; RegRet 0 0]; []; [Cb 0 [161; 178] (Some 11) 3]; []; [];
+     [Cb 0 [161; 178] None 5]; [Cb 0 [161; 178] (Some 12) 7]]) = 1%N.
+Proof.
+  split; [|vm_compute; repeat split; reflexivity].
+  split; [|split].
+  - cbn [hist_ok bw_example ev_ok]. repeat split; try (intros szx num Hb; try discriminate);
+      try (intros _; cbn; intuition discriminate).
+    + left. reflexivity.
+    + right. cbn. discriminate.
+  - intros t t' Ht Ht' Hc. cbn in Ht, Ht'.
+    repeat (destruct Ht as [Ht|Ht]; [subst t|]); try contradiction;
+      repeat (destruct Ht' as [Ht'|Ht']; [subst t'|]); try contradiction; try reflexivity;
+      vm_compute in Hc; discriminate.
+  - intros t Ht. cbn in Ht. destruct Ht as [Ht|[]]. subst t. cbn. intuition discriminate.
+Qed.
